@@ -147,7 +147,7 @@ def git_ignored(repo, rels):
 
 # ------------------------------------------------------------------ space
 
-CONFIGS = [('absln', 'opt', ''), ('absdd', 'opt', 'dfs'), ('tworepo', 'opt', ''), ('tworepo2', 'opt', ''), ('dot', 'opt', ''), ('rel', 'opt', ''), ('abs', 'opt', 'dfs'), ('subdir', 'opt', ''), ('dot', 'config', ''),
+CONFIGS = [('absln', 'opt', ''), ('absdd', 'opt', 'dfs'), ('tworepo', 'opt', ''), ('tworepo2', 'opt', ''), ('tworepo-aba', 'opt', ''), ('tworepo-bab', 'opt', 'dfs'), ('dot', 'opt', ''), ('rel', 'opt', ''), ('abs', 'opt', 'dfs'), ('subdir', 'opt', ''), ('dot', 'config', ''),
            ('dot', 'config-no', ''), ('dot', 'off', ''), ('two', 'opt', ''), ('abs', 'opt', ''), ('subdir', 'opt', 'dfs')]
 
 
@@ -183,9 +183,10 @@ def eval_group(env, group, tier):
     os.symlink('c++ (1) [x]/w', os.path.join(holder, 'lnk'))
     core.materialise(repo, the_tree())
     # a second, independent repository / context with its own ignore file
-    repo2 = os.path.join(holder, 'repo2')
+    repo2 = os.path.join(os.path.dirname(repo), 'repo2')       # a sibling whose path has the first repository's path as a textual prefix
     os.mkdir(repo2)
-    core.materialise(repo2, {'a.o': F(1), 'keep.c': F(1), 'only2': F(1), 'sub': D({'b.o': F(1), 'only2': F(1)})})
+    core.materialise(repo2, {'a.o': F(1), 'keep.c': F(1), 'only2': F(1), 'sub': D({'b.o': F(1), 'only2': F(1)}),
+                              'sub2': D({'c.o': F(1), 'only2': F(1), 'deep': D({'only2': F(1), 'k': F(1)})})})
     outs = []
     conf0 = open(env.config_path()).read()
     try:
@@ -228,10 +229,16 @@ def eval_group(env, group, tier):
                     cwd, frm, scope = holder, "'" + os.path.join(holder, 'lnk', 'repo') + "'" + rootopts, ''
                 elif spelling == 'absdd':        # absolute, with .. components
                     cwd, frm, scope = holder, "'" + os.path.join(repo, 'src', '..') + "'" + rootopts, ''
-                elif spelling in ('tworepo', 'tworepo2'):
+                elif spelling.startswith('tworepo'):
                     cwd, scope = holder, ''
                     r1, r2 = "'" + repo + "'" + rootopts, "'" + repo2 + "'" + rootopts
                     frm = (r1 + ', ' + r2) if spelling == 'tworepo' else (r2 + ', ' + r1)
+                    if spelling == 'tworepo-aba':      # first repository, second, first again (two sub-directories of it)
+                        scope = 'src|docs'
+                        frm = "'%s'%s, %s, '%s'%s" % (os.path.join(repo, 'src'), rootopts, r2, os.path.join(repo, 'docs'), rootopts)
+                    elif spelling == 'tworepo-bab':
+                        scope = 'src'
+                        frm = "'%s'%s, '%s'%s, '%s'%s" % (os.path.join(repo2, 'sub'), rootopts, os.path.join(repo, 'src'), rootopts, os.path.join(repo2, 'sub2'), rootopts)
                 elif spelling == 'subdir':
                     cwd, frm, scope = repo, 'src' + rootopts, 'src'
                 else:
@@ -251,7 +258,10 @@ def eval_group(env, group, tier):
                 got = []
                 extra2 = []
                 if spelling.startswith('tworepo'):
-                    e2 = ['a.o', 'keep.c', 'only2', 'sub', 'sub/b.o', 'sub/only2', FILE[tool]]
+                    e2 = ['a.o', 'keep.c', 'only2', 'sub', 'sub/b.o', 'sub/only2', 'sub2', 'sub2/c.o', 'sub2/only2', 'sub2/deep', 'sub2/deep/only2',
+                          'sub2/deep/k', FILE[tool]]
+                    if spelling == 'tworepo-bab':
+                        e2 = [e for e in e2 if e.startswith(('sub/', 'sub2/'))]
                     extra2 = sorted('@2/' + e for e in e2 if not (active and e.endswith('only2')))
                 for p in o.rows():
                     ap = os.path.realpath(os.path.dirname(os.path.normpath(os.path.join(cwd, p)))) + '/' + os.path.basename(p)
